@@ -108,3 +108,31 @@ fn c03_multitarget_m2_n0() {
     assert!(e.nrows() == 0 && e.ncols() == 2);
     kani::cover!(t[0][0] != t[1][0]);
 }
+
+// A member that hands its prediction back in a NON-STANDARD LAYOUT (negative stride: the buffer holds the values in reverse order).
+// C03: "for any ... memory layout ... column j of a multi-target wrapper is model j's prediction".  Repaired defect (/repo 8c92003):
+// the wrapper flattened members' outputs with into_raw_vec(), i.e. in memory order.
+struct Rev2 { t: [u8; 4] }
+impl PredictInplace<Array2<u8>, Array1<u8>> for Rev2 {
+    fn predict_inplace<'a>(&'a self, x: &'a Array2<u8>, y: &mut Array1<u8>) {
+        assert!(x.nrows() == 2 && y.len() == 2, "The number of data points must match the number of output targets.");
+        let mut v = Array1::from(vec![self.t[(x[(1, 0)] & 3) as usize], self.t[(x[(0, 0)] & 3) as usize]]);
+        v.invert_axis(Axis(0));
+        *y = v;
+    }
+    fn default_target(&self, x: &Array2<u8>) -> Array1<u8> { Array1::zeros(x.nrows()) }
+}
+// @unit class=bounded tier=quick mem=heavy bound="models=2,rows=2; second member returns a negative-stride array" timeout=900 fns=linfa::composing::MultiTargetModel::predict_inplace
+#[kani::proof]
+#[kani::unwind(5)]
+#[kani::stub(alloc::fmt::format, fmt_stub)]
+fn c03_multitarget_m2_n2_reversed_layout() {
+    let t: [[u8; 4]; 2] = kani::any();
+    let r: [u8; 2] = kani::any();
+    let x = Array2::from_shape_vec((2, 1), vec![r[0], r[1]]).unwrap();
+    let mt: MultiTargetModel<Array2<u8>, u8> = MultiTargetModel::new(vec![member::<2>(t[0]), Box::new(Rev2 { t: t[1] })]);
+    let mut y = mt.default_target(&x);
+    mt.predict_inplace(&x, &mut y);
+    check::<2, 2>(&y, &t, &r);
+    kani::cover!(y[(0, 1)] != y[(1, 1)]);       // a reversed column would be visible
+}
